@@ -142,8 +142,13 @@ def run_chains(ctx: Ctx):
         xn = {k: np.asarray(system.inputs()[k].normalize(v), dtype=float) for k, v in xs.items()}
         try:
             y = system.predict(xn)
+            y_raw_in = system.predict(xs, normalized_inputs=False)       # the same points handed over in physical units
         except Exception as e:
             ctx.violate('C04:predict-raises', f'{type(e).__name__}: {e}', case); continue
+        for k_ in y:
+            if k_ in y_raw_in and not systems.floats_close(y[k_], y_raw_in[k_], rtol=1e-9, atol=1e-9):
+                ctx.violate('C04:raw-vs-normalised-inputs', f'output {k_}: {np.ravel(y[k_]).tolist()} from normalised inputs, {np.ravel(y_raw_in[k_]).tolist()} from the same inputs in '
+                            f'physical units (normalized_inputs=False)', case); break
         # functional correspondence: Model/Sys.v eval with EXACT surrogates (Model/SysRun.v: norm_out o model o denorm_in on normalised
         # values) on the same normalised inputs - the executable form of C04_chain_exact; minmax chains are the recorded finding F6
         if norm != 'minmax':
